@@ -363,7 +363,7 @@ class Stage:
     def register_variable(self, v, grid = '', order=0, scale=1, include_last=False, domain='real', meta=None):
         if isinstance(v, list):
             for e in v:
-                self.register_variable(e, scale=scale, domain=domain)
+                self.register_variable(e, grid=grid, order=order, scale=scale, include_last=include_last, domain=domain, meta=meta)
             return
         if grid not in ['', 'control', 'states', 'bspline']:
             raise Exception("Invalid argument: grid must be '', 'control', 'states' or 'bspline', got " + repr(grid))
@@ -439,7 +439,7 @@ class Stage:
     def register_parameter(self, p, grid='', order=0, scale=1, include_last=False, meta=None):
         if isinstance(p,list):
             for e in p:
-                self.register_parameter(e, scale=scale)
+                self.register_parameter(e, grid=grid, order=order, scale=scale, include_last=include_last, meta=meta)
             return
         if grid not in ['', 'control', 'bspline']:
             raise Exception("Invalid argument: grid must be '', 'control' or 'bspline', got " + repr(grid))
